@@ -58,6 +58,11 @@ def enum {α : Type} (xs : List α) : List (Int × α) := enumFrom 0 xs
 /-- `m[k] = v` on a string map kept as an association list (latest binding first, older one removed) -/
 def kvSet (m : KV) (k v : Bytes) : KV := (k, v) :: m.filter (fun x => x.1 != k)
 
+/-- `m[k] = v` on a nil-able map that is not nil (`make` was called on it); an assignment to a nil map panics in Go,
+    the translated code only uses this on maps it has just made, and `none` stays `none` so that nothing can be
+    concluded from such a use -/
+def kvSetO (m : Option KV) (k v : Bytes) : Option KV := m.map fun l => kvSet l k v
+
 /-- `m[k]` on a string-valued Go map (the zero value "" when the key is absent) -/
 def kvGetD (m : KV) (k : Bytes) : Bytes :=
   match m.find? (fun x => x.1 == k) with
